@@ -11,8 +11,8 @@ import C03
 ID = 'C04'
 COQ_DIR = 'C04'
 EXTRA_COQ_DIRS = ('C03', 'C08')
-COQ_HEADER = 'From V Require Import Common.Num C03.Model C04.KBase C04.Model C04.Flx.\nOpen Scope Q_scope.'
-MODEL_FILES = ('KBase.v', 'Model.v', 'Flx.v')
+COQ_HEADER = 'From V Require Import Common.Num C03.Model C04.KBase C04.Model C04.Flx.\nFrom V Require C04.Setup.\nOpen Scope Q_scope.'
+MODEL_FILES = ('KBase.v', 'Model.v', 'Flx.v', 'Setup.v')
 
 def translate():
     """tie T: regenerate coq/C04/Gen_kernels.v from the current source; Proofs.v proves generated = hand-written by reflexivity"""
@@ -59,6 +59,7 @@ def gen_cases(rng, tier):
     cases += [gen_iter_case(rng, rng.choice([1, 3, 4])) for _ in range(n_k)]
     cases += [gen_flx_case(rng) for _ in range(80 if tier == 'quick' else 1200)]
     cases += [gen_iqsite_case(rng) for _ in range(24 if tier == 'quick' else 200)]
+    cases += [gen_kbh_case(rng) for _ in range(40 if tier == 'quick' else 400)]
     return cases
 
 # ---- the temperature domain of the bubble / dew point objects (equilibrium/domain.py) and what it does to a T,P flash
@@ -138,7 +139,7 @@ def oracle_dom(case):
 
 def search_cases(rng, tier):
     """extra inputs for the oracle when an obligation or the correspondence broke (not part of the correspondence)"""
-    return [gen_dom_case(rng, True) for _ in range(150)] + [gen_inert_hs_case(rng) for _ in range(60)]
+    return [gen_kbh_case(rng) for _ in range(80)] + [gen_dom_case(rng, True) for _ in range(150)] + [gen_inert_hs_case(rng) for _ in range(60)]
 
 HS_MIX = [{'Water': 10., 'Ethanol': 5., 'Methanol': 3.}, {'Water': 30., 'Ethanol': 10.}, {'Ethanol': 8., 'Methanol': 8.}, {'Water': 20., 'Methanol': 5.}]
 def gen_inert_hs_case(rng):
@@ -481,7 +482,192 @@ def coq_iqsite(case, out):
                      f'{copt(r["guess"], q)} {tab} {q(r["ret"])} {cnat(len(r["pts"]))})')
     return '(' + ' && '.join(terms) + ')'
 
+
+# ---- histories of flashes over several streams / property packages that list the SAME chemical objects in different orders, the
+#      material of a stream changing between calls: VLE._setup, the BubblePoint / DewPoint constructor caches and the K-value base
+#      handed to _solve_v_fixed_point, against coq/C04/Setup.v
+KB_T = [350., 355., 360.]
+KB_FLOW = [10., 15., 20., 30., 40., 55., 60., 70., 5.]
+KB_F = [0.5, 0.25, 0.75, 0.0625, 0.9375, 0.375, 0.625, 1.25, -0.25]
+_kb = {}
+def kb_thermo(perm, pkg):
+    """a package over the chemical OBJECTS of the C03 environment listed in the order perm; 'D' = activity coefficients, 'I' = .ideal()"""
+    e = C03.env(); tmo = e['tmo']
+    key = tuple(perm)
+    if key not in _kb:
+        if list(perm) == list(range(len(C03.IDS))):
+            th = e['thermo']
+        else:
+            objs = e['thermo'].chemicals.tuple
+            th = tmo.Thermo(tmo.Chemicals([objs[i] for i in perm]))
+        _kb[key] = {'D': th, 'I': th.ideal()}
+    return _kb[key][pkg]
+
+def gen_kbh_case(rng):
+    n = len(C03.IDS)
+    streams = []
+    for _ in range(rng.randint(1, 3)):
+        perm = list(range(n))
+        r = rng.random()
+        if r < 0.35: pass
+        elif r < 0.6: perm[:3] = rng.sample(perm[:3], 3)          # the volatile chemicals permuted, the rest in place
+        else: rng.shuffle(perm)
+        streams.append({'perm': perm, 'pkg': rng.choice('DI')})
+    if len(streams) >= 2 and rng.random() < 0.6: streams[1]['pkg'] = streams[0]['pkg']      # same classes, (mostly) another order
+    ops = []; last = {}
+    for _ in range(rng.randint(2, 5)):
+        si = rng.randrange(len(streams)) if not ops or rng.random() < 0.5 else ops[-1]['s']
+        r = rng.random()
+        if r < 0.6: ids = rng.sample([0, 1, 2], 2)
+        elif r < 0.9: ids = [0, 1, 2]
+        else: ids = [rng.choice([0, 1, 2])]
+        if ops and rng.random() < 0.3: mix = dict(ops[-1]['mix'])          # the same material again (possibly on another stream)
+        else:
+            mix = {str(i): rng.choice(KB_FLOW) for i in sorted(ids)}
+            if rng.random() < 0.2: mix[str(rng.choice([3, 4]))] = rng.choice([0.125, 0.5])        # a little non-condensable gas
+            if rng.random() < 0.15: mix[str(rng.choice([5, 6]))] = rng.choice([0.25, 1.])         # a little non-volatile solute
+        T = last[si] if si in last and rng.random() < 0.65 else rng.choice(KB_T)     # a unit re-fed at an unchanged operating temperature
+        last[si] = T
+        op = {'s': si, 'mix': mix, 'T': T}
+        if rng.random() < 0.8: op['sk'] = 'TP'; op['f'] = rng.choice(KB_F)
+        else: op['sk'] = 'TV'; op['V'] = rng.choice([0.25, 0.5, 0.75])
+        ops.append(op)
+    return {'kind': 'kbh', 'streams': streams, 'ops': ops}
+
+def kb_ref(pkg, gids, z, T):
+    """bubble and dew pressure of the volatile part by an independent (modified) Raoult calculation; gids = chemical numbers"""
+    e = C03.env(); tmo = e['tmo']
+    objs = [e['thermo'].chemicals.tuple[i] for i in gids]
+    Ps = np.array([float(c.Psat(T)) for c in objs])
+    if pkg == 'I' or len(gids) < 2:
+        return float((z * Ps).sum()), 1. / float((z / Ps).sum()), Ps, None
+    gamma = tmo.equilibrium.DortmundActivityCoefficients(objs)
+    Pb = float((z * np.asarray(gamma(z, T)) * Ps).sum())
+    x = z.copy(); Pd = Pb
+    for _ in range(500):
+        g = np.asarray(gamma(x, T))
+        Pd = 1. / float((z / (g * Ps)).sum())
+        xn = z * Pd / (g * Ps); xn = xn / xn.sum()
+        if np.abs(xn - x).max() < 1e-13: break
+        x = xn
+    return Pb, Pd, Ps, gamma
+
+def kb_play(case, on_call=None):
+    """run the history on the real code; yields per op (stream, VLE object, spec, reference data, exception name)"""
+    e = C03.env(); tmo = e['tmo']
+    from thermosteam.equilibrium.bubble_point import BubblePoint
+    from thermosteam.equilibrium.dew_point import DewPoint
+    BubblePoint._cached.clear(); DewPoint._cached.clear()      # a process that has flashed nothing yet
+    n = len(C03.IDS)
+    ss = [tmo.MultiStream(None, T=300., P=101325., phases='lg', thermo=kb_thermo(st['perm'], st['pkg'])) for st in case['streams']]
+    for op in case['ops']:
+        st = case['streams'][op['s']]; s = ss[op['s']]; perm = st['perm']
+        arr = np.zeros(n)
+        for k, v in op['mix'].items(): arr[perm.index(int(k))] = v
+        s.imol['g'] = np.zeros(n); s.imol['l'] = arr
+        vol = sorted(int(k) for k in op['mix'] if int(k) < 3)
+        zv = np.array([op['mix'][str(i)] for i in vol], float); zv = zv / zv.sum()
+        Pb, Pd, Ps, gamma = kb_ref(st['pkg'], vol, zv, op['T'])
+        spec = {'T': op['T'], 'P': Pd + op['f'] * (Pb - Pd)} if op['sk'] == 'TP' else {'T': op['T'], 'V': op['V']}
+        try: s.vle(**spec); err = None
+        except Exception as ex: err = type(ex).__name__
+        yield op, st, s, spec, (vol, zv, Pb, Pd, Ps, gamma), err
+
+def run_kbh(case):
+    e = C03.env(); vm = e['vm']
+    calls = []
+    orig_fp = vm.VLE.__dict__['_solve_v_fixed_point']
+    def fixed_point(self, pcf_Psat_over_P, T, P, *a):
+        calls.append([float(T), float(P), [float(x) for x in np.asarray(pcf_Psat_over_P, float).ravel()]])
+        return orig_fp(self, pcf_Psat_over_P, T, P, *a)
+    p = C03.Patches(); p.set(vm.VLE, '_solve_v_fixed_point', fixed_point)
+    out = []; keep = []; objs = e['thermo'].chemicals.tuple
+    gid = {id(c): i for i, c in enumerate(objs)}
+    try:
+        for op, st, s, spec, ref, err in kb_play(case):
+            v = s.vle; perm = st['perm']
+            def inst(o):
+                if o is None: return None
+                keep.append(o)
+                gname = type(o.gamma).__name__
+                # an instance is represented by its constructor arguments; thermo.Gamma(chemicals) degenerates to an IdealActivityCoefficients
+                # object when at most one chemical carries groups (GroupActivityCoefficients.__new__): reported as the package's class
+                if len(o.chemicals) <= 1 and gname == 'IdealActivityCoefficients': gname = kb_thermo(st['perm'], st['pkg']).Gamma.__name__
+                return [id(o), [gid[id(c)] for c in o.chemicals], gname, type(o.phi).__name__, type(o.pcf).__name__]
+            mix = op['mix']
+            out.append({'nz': sorted(perm.index(int(k)) for k in mix), 'zl': any(int(k) in (3, 4) for k in mix), 'zh': any(int(k) == 6 for k in mix),
+                        'N': None if err == 'NoEquilibrium' else int(v._N), 'err': err, 'index': [int(i) for i in v._index],
+                        'bp': inst(getattr(v, '_bubble_point', None)), 'dp': inst(getattr(v, '_dew_point', None)),
+                        'calls': calls[:]})
+            del calls[:]
+    finally:
+        p.undo()
+    for which in ('bp', 'dp'):
+        seen = {}
+        for o in out:
+            if o[which]: o[which][0] = seen.setdefault(o[which][0], len(seen))
+    # the vapour pressures, evaluated directly on the chemical objects at the temperatures the solver was called with
+    tab = {}
+    for o in out:
+        for T, P, kb in o['calls']:
+            for i in range(3): tab.setdefault((i, T), float(objs[i].Psat(T)))
+    pk = []
+    for st in case['streams']:
+        th = kb_thermo(st['perm'], st['pkg']); ch = th.chemicals
+        pk.append({'vle': [int(i) for i in ch._vle_index], 'cls': [th.Gamma.__name__, th.Phi.__name__, th.PCF.__name__]})
+    return {'steps': out, 'tab': [[i, T, v] for (i, T), v in sorted(tab.items())], 'pkgs': pk}
+
+def coq_kbh(case, out):
+    tab = clist(out['tab'], lambda r: f'({cnat(r[0])}, {q(r[1])}, {q(r[2])})')
+    pkgs = clist([f'({clist([f"({cnat(c)}, {cbool(k in pk["vle"])})" for k, c in enumerate(st["perm"])])}, '
+                  f'({cnat(CLS[pk["cls"][0]])}, {cnat(CLS[pk["cls"][1]])}, {cnat(CLS[pk["cls"][2]])}))' for st, pk in zip(case['streams'], out['pkgs'])])
+    ops = clist([f'(C04.Setup.mkfop {cnat(op["s"])} {clist(o["nz"], cnat)} {cbool(o["zl"])} {cbool(o["zh"])} '
+                 f'{clist(o["calls"], lambda c: f"({q(c[0])}, {q(c[1])})")})' for op, o in zip(case['ops'], out['steps'])])
+    def inst(x):
+        return 'None' if x is None else f'(Some ({cnat(x[0])}, ({clist(x[1], cnat)}, {cnat(CLS[x[2]])}, {cnat(CLS[x[3]])}, {cnat(CLS[x[4]])})))'
+    exp = clist([f'({copt(o["N"], cnat)}, {clist(o["index"], cnat)}, {inst(o["bp"])}, {inst(o["dp"])}, {clist([c[2] for c in o["calls"]], qlist)})'
+                 for o in out['steps']])
+    return f'(C04.Setup.setup_hist_check {tab} {pkgs} {ops} {exp})'
+
+def oracle_kbh(case):
+    """the equilibrium clauses after every call of the history, against independent Raoult / modified-Raoult calculations"""
+    k = -1
+    for op, st, s, spec, (vol, zv, Pb, Pd, Ps, gamma), err in kb_play(case):
+        k += 1
+        where = (f'call {k} of a history over {len(case["streams"])} stream(s) (package {st["pkg"]}, chemical order {[C03.IDS[i] for i in st["perm"]]}, '
+                 f'material {dict((C03.IDS[int(a)], b) for a, b in op["mix"].items())})')
+        if err: continue
+        if s.T != spec['T']: return f'vle({op["sk"]}) history: specified T={spec["T"]} but the stream has T={s.T}; {where}'
+        if 'P' in spec and s.P != spec['P']: return f'vle(TP) history: specified P={spec["P"]} but the stream has P={s.P}; {where}'
+        if len(vol) < 2 or len(vol) != len(op['mix']): continue                 # volatile chemicals only
+        perm = st['perm']
+        g = np.array([float(s.imol['g'].to_array()[perm.index(i)]) for i in vol]); l = np.array([float(s.imol['l'].to_array()[perm.index(i)]) for i in vol])
+        F = float(g.sum() + l.sum()); P = float(s.P); T = float(s.T)
+        if st['pkg'] == 'I':
+            K = Ps / P; V = raoult_rr(zv, K)
+            if op['sk'] == 'TV':
+                if abs(V - spec['V']) > 1e-3:
+                    return (f'vle(TV) history: ideal package, specified V={spec["V"]} met at P={P:.1f} where the Raoult Rachford-Rice vapour fraction is {V:.6f}; {where}')
+                continue
+            v = F * zv * K * V / (1. + V * (K - 1.)) if 0. < V < 1. else F * zv * V
+            if np.abs(g - v).max() > 1e-4 * max(1., F):
+                return (f'vle(TP) history: ideal package, T={T} P={P:.1f} (Raoult dew {Pd:.1f}, bubble {Pb:.1f}): vapour flows {g.round(6).tolist()} differ from the '
+                        f'Raoult Rachford-Rice solution {np.round(v, 6).tolist()}; {where}')
+        elif all(i in (1, 2) for i in vol):       # activity coefficients: one homologous family (methanol / ethanol)
+            if op['sk'] == 'TP':
+                if Pd * 1.002 < P < Pb * 0.998 and (g.sum() <= 1e-9 * F or l.sum() <= 1e-9 * F):
+                    return f'vle(TP) history: P_dew={Pd:.1f} < P={P:.1f} < P_bubble={Pb:.1f} (T={T}) but the result is single phase (V={g.sum() / F:.6f}); {where}'
+                if P > Pb * 1.002 and g.sum() > 1e-9 * F: return f'vle(TP) history: P={P:.1f} above the bubble pressure {Pb:.1f} (T={T}) but vapour is present (V={g.sum() / F:.6f}); {where}'
+                if P < Pd * 0.998 and l.sum() > 1e-9 * F: return f'vle(TP) history: P={P:.1f} below the dew pressure {Pd:.1f} (T={T}) but liquid is present (V={g.sum() / F:.6f}); {where}'
+            if g.sum() > 1e-9 * F and l.sum() > 1e-9 * F:
+                x = l / l.sum(); y = g / g.sum()
+                fl_ = x * np.asarray(gamma(x, T)) * Ps; fg = y * P
+                if np.abs(fl_ - fg).max() > 2e-3 * P:
+                    return f'vle({op["sk"]}) history: liquid fugacities {fl_.tolist()} differ from vapour fugacities {fg.tolist()} (T={T}, P={P:.1f}); {where}'
+    return None
+
 def run_impl(case):
+    if case['kind'] == 'kbh': return run_kbh(case)
     if case['kind'] == 'iqsite': return run_iqsite(case)
     if case['kind'] == 'flx': return run_flx(case)
     if case['kind'] == 'dom': return run_dom(case)
@@ -502,6 +688,7 @@ def run_impl(case):
     return C03.run_vle(case)
 
 def coq_case(case, out):
+    if case['kind'] == 'kbh': return coq_kbh(case, out)
     if case['kind'] == 'dom': return coq_dom(case, out)
     if case['kind'] == 'flx': return coq_flx(case, out)
     if case['kind'] == 'iqsite': return coq_iqsite(case, out)
@@ -524,6 +711,7 @@ def coq_show(case, out):
     return C03.coq_show(case, out) if case['kind'] == 'vle' else 'tt'
 
 def nontrivial(case, out):
+    if case['kind'] == 'kbh': return sum(1 for o in out['steps'] if o['calls']) >= 2
     if case['kind'] == 'iqsite': return bool(out['calls']) and not out['ill']
     if case['kind'] == 'flx': return not out['ill'] and out['calls'] >= 3
     if case['kind'] == 'dom': return len(set(out['tmaxs'])) >= 2 or len(set(out['tmins'])) >= 2
@@ -534,6 +722,21 @@ def nontrivial(case, out):
     return C03.nontrivial(case, out) or (out['init']['T'], out['init']['P']) != (out['final']['T'], out['final']['P'])
 
 def classify(case, out):
+    if case['kind'] == 'kbh':
+        tags = []
+        sets = {}
+        for op, o in zip(case['ops'], out['steps']):
+            key = (op['s'], op['T']); cur = tuple(sorted(op['mix']))
+            if o['calls'] and key in sets and sets[key] != cur and len([k for k in sets[key] if int(k) < 3]) == len([k for k in cur if int(k) < 3]):
+                tags.append('kbh:stream re-fed with another set of chemicals of the same size at the same T, two-phase solve reached')
+            sets[key] = cur
+        orders = {}
+        for op, o in zip(case['ops'], out['steps']):
+            if o['dp']:
+                k2 = (tuple(sorted(o['dp'][1])), tuple(o['dp'][2:]))
+                if k2 in orders and orders[k2] != tuple(o['dp'][1]): tags.append('kbh:same chemicals and classes flashed in two package orders')
+                orders.setdefault(k2, tuple(o['dp'][1]))
+        return sorted(set(tags)) or ['kbh:other history']
     if case['kind'] == 'iqsite':
         return ['iqsite:' + case['sk'] + ':' + ('no solver call (single phase / boundary branch)' if not out['calls'] else 'residual not a function of X or at rounding level (not compared)' if out['ill'] else 'solver call compared')]
     if case['kind'] == 'flx':
@@ -715,6 +918,7 @@ def oracle(case):
     a specified H is reproduced; a specified V is met; multiplying the feed (and H, S) by a constant multiplies the
     products by it; with the ideal package the T,P split equals an independent Raoult's-law Rachford-Rice solution."""
     if case['kind'] == 'xpkg': return oracle_xpkg(case)
+    if case['kind'] == 'kbh': return oracle_kbh(case)
     if case['kind'] == 'dom': return oracle_dom(case)
     if case['kind'] == 'vleh': return oracle_vleh(case)
     if case['kind'] != 'vle': return None
